@@ -1,0 +1,41 @@
+//go:build verif
+
+package docx
+
+import "encoding/xml"
+
+// Verification hooks for the bounded-work guards (C02). Add-only: exported wrappers of
+// unexported functions, compiled only with -tags verif; nothing here is used by the library.
+
+// VerifParseListLevel exposes parseListLevel (w:ilvl).
+func VerifParseListLevel(s string) int { return parseListLevel(s) }
+
+// VerifGridSpan returns the column span parseCell gives a cell whose w:gridSpan has this value.
+func VerifGridSpan(val string) int {
+	return NewTableParser(nil).parseCell(tableCellXML{Properties: cellPropsXML{GridSpan: gridSpanXML{Val: val}}}).ColSpan
+}
+
+// VerifLimitTableGrid exposes limitTableGrid.
+func VerifLimitTableGrid(t *ParsedTable) { limitTableGrid(t) }
+
+// VerifInheritanceChain builds a style resolver for the given word/styles.xml the way Open
+// does and exposes buildInheritanceChain (base first).
+func VerifInheritanceChain(stylesData []byte, id string) []string {
+	sr := NewStyleResolver(nil)
+	st := &stylesXML{}
+	if err := xml.Unmarshal(stylesData, st); err == nil {
+		sr = NewStyleResolver(st)
+	}
+	return sr.buildInheritanceChain(id)
+}
+
+// VerifParagraphDecode unmarshals one <w:p> element with paragraphXML.UnmarshalXML
+// (decodeContent) and returns the number of runs found.
+func VerifParagraphDecode(data []byte) (int, error) {
+	var p paragraphXML
+	err := xml.Unmarshal(data, &p)
+	return len(p.Runs), err
+}
+
+// VerifMaxInlineDepth exposes the nesting limit of decodeContent.
+func VerifMaxInlineDepth() int { return maxInlineDepth }
